@@ -215,6 +215,19 @@ func TestVerifC11AdvertisedVersionsAreServed(t *testing.T) {
 					t.Errorf("VIOLATION-DETAIL key %d v%d body %d (advertised=%v): %v", adv.ApiKey, v, bi, advertised, err)
 					failures++
 				}
+				if advertised {
+					// the same request again on the same handler with another correlation id: the reply must carry
+					// the id of THIS request (a reply served from per-handler state would carry the first one)
+					corr2 := corr + 500000
+					payload2, err2 := handler.Handle(context.Background(), &protocol.RequestHeader{APIKey: adv.ApiKey, APIVersion: v, CorrelationID: corr2, ClientID: &clientID}, req)
+					if err2 != nil || payload2 == nil {
+						t.Errorf("VIOLATION-DETAIL key %d v%d body %d: second request on the same handler got no reply (err=%v)", adv.ApiKey, v, bi, err2)
+						failures++
+					} else if err := c11CheckReply(adv.ApiKey, replyVersion, corr2, payload2); err != nil {
+						t.Errorf("VIOLATION-DETAIL key %d v%d body %d second request on the same handler: %v", adv.ApiKey, v, bi, err)
+						failures++
+					}
+				}
 			}
 		}
 	}
